@@ -130,10 +130,55 @@ func instrument(path string, funcs []string) ([]byte, int, error) {
 			doStmt(v.Stmt)
 		}
 	}
+	tmpN := 0
+	shared := func(e ast.Expr) bool {
+		switch e.(type) {
+		case *ast.SelectorExpr, *ast.IndexExpr, *ast.StarExpr:
+			return true
+		}
+		return false
+	}
+	opFor := map[token.Token]token.Token{token.ADD_ASSIGN: token.ADD, token.SUB_ASSIGN: token.SUB, token.MUL_ASSIGN: token.MUL, token.QUO_ASSIGN: token.QUO,
+		token.REM_ASSIGN: token.REM, token.AND_ASSIGN: token.AND, token.OR_ASSIGN: token.OR, token.XOR_ASSIGN: token.XOR, token.SHL_ASSIGN: token.SHL,
+		token.SHR_ASSIGN: token.SHR, token.AND_NOT_ASSIGN: token.AND_NOT}
+	// split a read-modify-write of shared memory (x.f++, a[i] |= m) into load / yield / store:
+	// that is what the hardware does, and it makes lost updates outside a lock observable.
+	splitRMW := func(s ast.Stmt) []ast.Stmt {
+		var lhs, rhs ast.Expr
+		var op token.Token
+		switch v := s.(type) {
+		case *ast.IncDecStmt:
+			lhs, rhs = v.X, &ast.BasicLit{Kind: token.INT, Value: "1"}
+			op = token.ADD
+			if v.Tok == token.DEC {
+				op = token.SUB
+			}
+		case *ast.AssignStmt:
+			o, ok := opFor[v.Tok]
+			if !ok || len(v.Lhs) != 1 || len(v.Rhs) != 1 {
+				return nil
+			}
+			lhs, rhs, op = v.Lhs[0], v.Rhs[0], o
+		default:
+			return nil
+		}
+		if !shared(lhs) {
+			return nil
+		}
+		tmpN++
+		tmp := ast.NewIdent(fmt.Sprintf("verifTmp%d", tmpN))
+		load := &ast.AssignStmt{Lhs: []ast.Expr{tmp}, Tok: token.DEFINE, Rhs: []ast.Expr{lhs}}
+		store := &ast.AssignStmt{Lhs: []ast.Expr{lhs}, Tok: token.ASSIGN, Rhs: []ast.Expr{&ast.BinaryExpr{X: tmp, Op: op, Y: &ast.ParenExpr{X: rhs}}}}
+		return []ast.Stmt{load, mk(), store}
+	}
 	doBlock = func(list []ast.Stmt) []ast.Stmt {
 		out := make([]ast.Stmt, 0, 2*len(list))
 		for _, s := range list {
 			out = append(out, mk())
+			if parts := splitRMW(s); parts != nil {
+				out = append(out, &ast.BlockStmt{List: parts})
+				continue
+			}
 			doStmt(s)
 			out = append(out, s)
 		}
